@@ -106,6 +106,11 @@ def cases(tier, seed):
         out.append({'k': 'blif', 'text': shift2, 'K': 3, 'merge': merge, 'tag': 'hier:shift2'})
         out.append({'k': 'blif', 'text': gated, 'pre': shift2, 'K': 1, 'merge': merge, 'tag': 'hier:second-import-after-clocked-one'})
         out.append({'k': 'blif', 'text': shift2, 'pre': gated, 'K': 3, 'merge': merge, 'tag': 'hier:clocked-import-after-gated-one'})
+    # an empty cover is the constant 0 whether or not the .names line lists inputs
+    t = '.model top\n.inputs a b\n.outputs y z\n.names a b n\n.names n a y\n01 1\n10 1\n.names z\n.end\n'
+    out.append({'k': 'blif', 'text': t, 'K': 1, 'tag': 'cover:empty-with-inputs'})
+    t = '.model top\n.inputs a b\n.outputs y\n.names a y\n.end\n'
+    out.append({'k': 'blif', 'text': t, 'K': 1, 'tag': 'cover:empty-with-one-input'})
     # several latches fed by the same next-state signal, with different initial values
     for inits in (('0', '1'), ('1', '0'), ('1', '2', '0'), ('', '1'), ('3', '1', '1')):
         qs = ['q%d' % i for i in range(len(inits))]
